@@ -156,8 +156,9 @@ def _race(cmds, text, timeout_s, tmpdir):
                 pass
 
 
-def solve_text(text_full, text_qf, timeout_s, tmpdir, want_model=False, race=False):
-    """-> (verdict, backend, seconds, raw)"""
+def solve_text(text_full, text_qf, timeout_s, tmpdir, want_model=False, race=False, first=None):
+    """-> (verdict, backend, seconds, raw).  `first`: name of the portfolio member that discharged this obligation in an earlier
+    run (a hint read from contracts/solver_hints.json): it is tried first; the verdict does not depend on the order."""
     t0 = time.time()
     notes = []
     if race:
@@ -176,7 +177,10 @@ def solve_text(text_full, text_qf, timeout_s, tmpdir, want_model=False, race=Fal
         r, out, dt = _run([Z3NEW, f"-T:{max(1, int(timeout_s) // 3)}"], text_qf, timeout_s // 3 + 1, tmpdir)
         if r == "unsat":
             return "unsat", "z3(qf-hyps)", time.time() - t0, None
-    for name, cmd in _portfolio(timeout_s):
+    members = _portfolio(timeout_s)
+    if first and first != "z3" and any(n == first for n, _ in members):
+        members = [m for m in members if m[0] == first] + [m for m in members if m[0] != first]
+    for name, cmd in members:
         txt = text_full + ("\n(get-model)\n" if want_model else "")
         r, out, dt = _run(cmd, txt, timeout_s, tmpdir)
         if r == "unsat":
@@ -194,7 +198,7 @@ def solve_text(text_full, text_qf, timeout_s, tmpdir, want_model=False, race=Fal
     return "unknown", "portfolio", time.time() - t0, "; ".join(notes)
 
 
-def discharge(obligations, probes=None, timeout_ms=10000, jobs=None):
+def discharge(obligations, probes=None, timeout_ms=10000, jobs=None, hints=None):
     """sets .verdict ('discharged'|'refuted'|'undecided'), .backend, .time, .raw on every obligation.
 
     Every obligation is attempted as a whole by the portfolio; obligations whose hypotheses contain joined paths
@@ -238,7 +242,7 @@ def discharge(obligations, probes=None, timeout_ms=10000, jobs=None):
             if obligations[i].expect_refuted:
                 r, out, dt = _run([Z3NEW, "-T:5"], full, 5, tmpdir)
                 return ("whole", i, None, ({"sat": "sat", "unsat": "unsat"}.get(r, "unknown"), "z3", dt, None))
-            res = solve_text(full, qf, timeout_s, tmpdir, want_model=True, race=race)
+            res = solve_text(full, qf, timeout_s, tmpdir, want_model=True, race=race, first=(hints or {}).get(obligations[i].id))
             if res[0] in ("unsat", "sat"):
                 decided.setdefault(i, res[0])
             return ("whole", i, None, res)
